@@ -67,8 +67,8 @@ func genC17(g *G) {
 	}
 	for i := 0; i < rounds; i++ {
 		a, b := randPt(), randPt()
-		add(a, b)     // generic
-		add(a, a)     // doubling through Add
+		add(a, b)      // generic
+		add(a, a)      // doubling through Add
 		add(a, neg(a)) // cancellation to the identity
 		add(a, O)
 		add(O, a)
